@@ -209,9 +209,19 @@ fn usage<T: Transport>(d: &mut AnyDriver<T>, co: &CoRc, steps: usize, keep: &mut
             AnyDriver::Sound(s) => {
                 let _ = s.latest_notification();
             }
-            AnyDriver::Gpu(g) => {
-                let _ = g.resolution();
-            }
+            AnyDriver::Gpu(g) => match step {
+                // Operations that allocate DMA memory after construction.
+                0 => {
+                    let _ = g.setup_framebuffer().map(|fb| fb.len());
+                }
+                1 => {
+                    let _ = g.setup_cursor(&vec![0u8; 64 * 64 * 4], 1, 2, 3, 4);
+                }
+                _ => {
+                    let _ = g.change_resolution(33, 32).map(|fb| fb.len());
+                    let _ = g.flush();
+                }
+            },
             AnyDriver::P9(p) => {
                 let mut resp = [0u8; 16];
                 let _ = p.request(&[7, 0, 0, 0, 100, 0, 0], &mut resp);
@@ -229,7 +239,24 @@ pub fn run_case(case: &Case) -> Out {
     }
     let w = DWorld::new(case.kind, case.tkind, case.offered, cfg);
     install_dealloc_hook(&w.dev);
-    let co = CoDevice::new(w.dev.clone(), cosim::zero_responder(case.kind));
+    let co = if case.kind == Kind::Gpu {
+        // The GPU needs meaningful answers for its allocating operations.
+        let gd = std::rc::Rc::new(std::cell::RefCell::new(crate::c20::GpuDev { display: (40, 30), ..Default::default() }));
+        CoDevice::new(
+            w.dev.clone(),
+            Box::new(move |q, chain, readable| {
+                let mut g = gd.borrow_mut();
+                let mut errs = vec![];
+                let cmd = crate::c20::decode_gpu(readable, &mut errs);
+                let resp = g.exec(q, &cmd, None);
+                g.log.clear();
+                let n = resp.len().min(chain.writable_len());
+                Action::Complete(resp[..n].to_vec(), n as u32)
+            }),
+        )
+    } else {
+        CoDevice::new(w.dev.clone(), cosim::zero_responder(case.kind))
+    };
     co.borrow_mut().spin_horizon = 16;
     cosim::install(&co);
     alloc_watch::arm(&w.dev);
@@ -264,7 +291,7 @@ pub fn run_case(case: &Case) -> Out {
     if w.dev.borrow().status != 0 {
         viols.push(("device-not-reset".to_string(), format!("device status {:#x} after everything was dropped", w.dev.borrow().status)));
     }
-    if case.fail_at.map(|k| k < calls).unwrap_or(false) && r.class == "ok" {
+    if case.fail_at.map(|k| k < calls).unwrap_or(false) && r.class == "ok" && case.usage == 0 {
         viols.push(("failure-ignored".to_string(), "a DMA allocation failed but construction reported success".to_string()));
     }
     Out { class: r.class, viols, dma_calls: calls }
